@@ -367,6 +367,35 @@ func (c *Conn) Close() error {
 	return nil
 }
 
+// CloseWrite and CloseRead are what a *net.TCPConn offers beyond net.Conn (a half-close); code that looks
+// for them with a type assertion finds them here as it would on a real socket.
+func (c *Conn) CloseWrite() error {
+	c.log.Add(EvNote, c.ID, 0, nil, "close-write")
+	c.mu.Lock()
+	defer c.mu.Unlock()
+	if c.closed {
+		return net.ErrClosed
+	}
+	if c.werr == nil {
+		c.werr = errHalfClosed
+	}
+	return nil
+}
+
+func (c *Conn) CloseRead() error {
+	c.log.Add(EvNote, c.ID, 0, nil, "close-read")
+	c.mu.Lock()
+	defer c.mu.Unlock()
+	if c.closed {
+		return net.ErrClosed
+	}
+	c.in, c.eof = nil, true
+	c.cond.Broadcast()
+	return nil
+}
+
+var errHalfClosed = errors.New("write on a connection whose write side was shut down")
+
 func (c *Conn) LocalAddr() net.Addr  { return c.local }
 func (c *Conn) RemoteAddr() net.Addr { return c.remote }
 
